@@ -21,6 +21,7 @@ from pathlib import Path
 
 import py2lean_k
 import py2lean_t
+import py2lean_s
 import py2lean_r
 import py2lean_v
 
@@ -196,3 +197,19 @@ def optional_legacy_xpath(repo: Path, lean: Path) -> dict:
     """C20: `_match_node_xpath` of src/pyoak/legacy/match/xpath.py (idiom table: py2lean_k.LEGACY_IDIOMS)"""
     return _optional(repo, lean, "KernelsLegacyXPath.lean", py2lean_k.generate_legacy_xpath, LEGACY_XPATH_MODULE,
                      LEGACY_XPATH_THEOREMS, "legacy _match_node_xpath")
+
+
+SEROPTS_MODULE = "PyOak.Props.GenBridgeSerOpts"
+SEROPTS_THEOREMS = ["PyOak.GenBridgeSerOpts." + t for t in [
+    # about the generated functions alone: every dict primitive, body, state, arguments
+    "reset_after_gen_dict", "reset_after_gen_obj", "outcome_gen_dict", "outcome_gen_obj",
+    # model (`enter; tryFin body resetM`, `callF`) = generated, for every body / hook, state, options, dialect
+    "enter_eq_entered", "as_dict_eq_gen_body", "as_obj_eq_gen_body", "as_dict_eq_gen", "as_obj_eq_gen",
+    # `reset_afterF` derived from the generated code
+    "reset_after_gen"]]
+
+
+def optional_seropts(repo: Path, lean: Path) -> dict:
+    """C16: `DataClassSerializeMixin.as_dict` / `as_obj` (src/pyoak/serialize.py): the slot writes and the try/finally"""
+    return _optional(repo, lean, "KernelsSerOpts.lean", py2lean_s.generate_seropts, SEROPTS_MODULE, SEROPTS_THEOREMS,
+                     "DataClassSerializeMixin.as_dict / as_obj (pyoak/serialize.py)")
